@@ -236,6 +236,8 @@ def c03(case, trace, settled=False):
                 j += 1
                 while j + 1 < len(trace) and trace[j + 1]["op"][0] in ("deliver", "eos"):
                     j += 1
+                if t.get("atf_done") and not any(trace[x]["op"][0] == "eos" for x in range(i + 1, j + 1)):
+                    continue  # nothing was preloaded: the old stream has not reached its end yet
             elif k == "atf" and not (p["a_uri"] is not None and p["a_state"] == "playing" and not p.get("atf_done")):
                 continue
             a = trace[j]
@@ -253,8 +255,13 @@ def c03(case, trace, settled=False):
             msg = c03_prediction(pred, kind, p, a)
             if msg:
                 m = p["modes"]
-                if m[0] and m[1] and m[2] and len(p["tl"]) == 1 and pred == p["current"]:
-                    key = {"shape": "consume+random+repeat, single entry predicts itself"}
+                if m[0] and m[1] and pred is not None and pred == p["current"]:
+                    # next_track's random branch has no consume guard: after a reshuffle (repeat
+                    # with the order used up, or any tracklist edit) the order contains the
+                    # playing entry, which is announced although consume removes it when it ends
+                    key = {"shape": "consume+random: the announced entry is the playing entry itself"}
+                elif m[0] and m[2] and m[3] and kind == "eot" and pred is not None and pred == p["current"]:
+                    key = {"shape": "consume+single+repeat: eot announces the playing entry itself"}
                 else:
                     key = {"call": k, "modes": "".join("1" if x else "0" for x in m), "state": p["state"]}
                 yield (f"predict_{kind}", key, msg, j)
@@ -308,7 +315,16 @@ def c05(case, trace):
         for name, kw in t["events"]:
             if name == "track_playback_started":
                 trk = int(kw["tl_track"].track.uri.split(":t")[1])
-                if last_attempt.get(trk) is not True:
+                dl = t.get("delivered")
+                if k == "deliver" and dl is not None and dl[0] == "stream_changed":
+                    # legitimate when the reported stream is the announced track's own URI (set_uri is
+                    # only reached through an accepted change_track) or the latest change to that
+                    # track was accepted (an older stream_changed may confirm a newer accepted switch)
+                    if (dl[1] is None or int(dl[1].split(":t")[1]) != trk) and last_attempt.get(trk) is not True:
+                        yield ("started_only_if_accepted", {"call": k},
+                               "track_playback_started for a track the audio layer did not switch to "
+                               "(its change attempt failed)", i)
+                elif last_attempt.get(trk) is not True:
                     yield ("started_only_if_accepted", {"call": k},
                            "track_playback_started for a track whose last change attempt failed", i)
         if t["exc"] and t["exc"] not in DOC_ERRORS.get(k, set()):
@@ -325,13 +341,17 @@ def c05(case, trace):
             yield hit
         for hit in _consume_drops_unplayable(case, trace, i):
             yield hit
-        if t["modes"][0] and failed_in_op and k in ("play", "next", "previous", "atf", "seek", "deliver"):
-            consume_before = trace[i - 1]["modes"][0] if i > 0 else False
-            if consume_before:
-                for trk in failed_in_op:
-                    if case["kinds"][trk] != "playable" and k != "previous":
-                        # all entries of that track tried in this op must be gone unless retried successfully
-                        pass
+        if t["modes"][0] and failed_in_op and k in ("play", "next", "previous", "atf") and not t["exc"] \
+                and not t["diverged"] and i > 0 and trace[i - 1]["modes"][0]:
+            # every retry loop calls _mark_unplayable on the candidate it could not switch to: under
+            # consume that entry leaves the tracklist (checked for tracks with a single entry)
+            before = _prev_tl(trace, i)
+            after_trks = [trk for _, trk in t["tl"]]
+            for trk in failed_in_op:
+                if [x for _, x in before].count(trk) == 1 and trk in after_trks:
+                    yield ("consume_drops_refused", {"call": k, "single_entry": True},
+                           f"track {trk} was refused during {k} under consume but is still in the tracklist", i)
+                    break
 
 
 def _retry_same_track(case, trace, i):
@@ -352,7 +372,8 @@ def _retry_same_track(case, trace, i):
         seen[trk] = seen.get(trk, 0) + 1
     for trk, n in seen.items():
         loops = 2 if t["op"][0] == "seek" else 1   # seek may run play() and then next()
-        if n > loops * (2 * max(mult.get(trk, 1), 1) + 1):
+        # 2*len iterations can span the rest of one shuffle order, a full pass and part of a third
+        if n > loops * 3 * max(mult.get(trk, 1), 1):
             yield ("tries_following_candidates", {"call": t["op"][0], "random": bool(t["modes"][1])},
                    f"track {trk} was asked {n} times in one operation instead of moving on to the next candidate", i)
             return
@@ -370,7 +391,8 @@ def _consume_drops_unplayable(case, trace, i):
         return  # consume on, random/repeat/single off
     if k == "atf" and not (p["a_uri"] is not None and p["a_state"] == "playing" and p["state"] != "stopped"):
         return
-    ref = p["pending"] if p["pending"] is not None else p["current"]
+    # next() starts from the pending-or-current entry, the end-of-track handler from the current one
+    ref = p["current"] if k == "atf" else (p["pending"] if p["pending"] is not None else p["current"])
     new = t["pending"] if t["pending"] is not None else t["current"]
     ids = [x for x, _ in p["tl"]]
     if ref is None or new is None or ref not in ids or new not in ids or new == ref:
